@@ -142,7 +142,7 @@ func (V *Verifier) buildQuery(o *Oblig, sums map[string]*SumFn, negate bool) str
 		body.WriteString("(assert (not " + o.Goal + "))\n")
 	}
 	text := body.String()
-	// unfold recursive sums at the index terms that occur (to a fixpoint, bounded)
+	// unfold recursive sums at the applications that occur (to a fixpoint, bounded)
 	var unfold []string
 	seenU := map[string]bool{}
 	for round := 0; round < 3; round++ {
@@ -150,7 +150,7 @@ func (V *Verifier) buildQuery(o *Oblig, sums map[string]*SumFn, negate bool) str
 		scan := text + strings.Join(unfold, "\n")
 		for _, sf := range sums {
 			for _, args := range sexpArgs(scan, sf.Name) {
-				if len(args) != len(sf.Outer)+1 {
+				if len(args) != len(sf.PSorts)+1 || hasBoundArg(args) {
 					continue
 				}
 				key := sf.Name + " " + strings.Join(args, " ")
@@ -160,23 +160,19 @@ func (V *Verifier) buildQuery(o *Oblig, sums map[string]*SumFn, negate bool) str
 				seenU[key] = true
 				added = true
 				n := args[len(args)-1]
-				lo, bodyAt := sf.Lo, sf.Body
-				for i, o := range sf.Outer {
-					lo = replaceToken(lo, o, args[i])
-					bodyAt = replaceToken(bodyAt, o, args[i])
-				}
-				prev := "(- " + n + " 1)"
+				lo, bodyAt := sf.inst(args[:len(args)-1], "(- "+n+" 1)")
 				app := func(last string) string {
 					return sApp(sf.Name, append(append([]string{}, args[:len(args)-1]...), last)...)
 				}
 				unfold = append(unfold, fmt.Sprintf("(assert (=> (<= %s %s) (= %s 0)))", n, lo, app(n)))
-				unfold = append(unfold, fmt.Sprintf("(assert (=> (> %s %s) (= %s (+ %s %s))))", n, lo, app(n), app(prev), replaceToken(bodyAt, sf.BodyV, prev)))
+				unfold = append(unfold, fmt.Sprintf("(assert (=> (> %s %s) (= %s (+ %s %s))))", n, lo, app(n), app("(- "+n+" 1)"), bodyAt))
 			}
 		}
 		if !added {
 			break
 		}
 	}
+	unfold = append(unfold, sumRelationLemmas(text+strings.Join(unfold, "\n"), sums)...)
 	full := text + strings.Join(unfold, "\n")
 	used := map[string]bool{}
 	for _, m := range symRe.FindAllString(full, -1) {
@@ -197,6 +193,14 @@ func (V *Verifier) buildQuery(o *Oblig, sums map[string]*SumFn, negate bool) str
 	}
 	if len(V.strOrder) > 0 {
 		b.WriteString("(assert (distinct emptyStr " + strings.Join(V.strOrder, " ") + "))\n")
+	}
+	zs := map[string]bool{}
+	for m := range used {
+		if strings.HasPrefix(m, "|zarr:") && !zs[m] {
+			zs[m] = true
+			parts := strings.SplitN(strings.Trim(m, "|"), ":", 3)
+			b.WriteString("(declare-const " + m + " " + strings.ReplaceAll(parts[1], "_", " ") + ")\n")
+		}
 	}
 	for _, d := range o.Decls {
 		m := symRe.FindString(d)
@@ -378,4 +382,110 @@ func sanitize(s string) string {
 		}
 		return '_'
 	}, s)
+}
+
+// inst instantiates lo and body of a sum function for concrete parameters and summation index.
+func (sf *SumFn) inst(params []string, v string) (lo, body string) {
+	lo, body = sf.Lo, sf.Body
+	for i := len(params) - 1; i >= 0; i-- {
+		p := fmt.Sprintf("p%d?", i)
+		lo = strings.ReplaceAll(lo, p, params[i])
+		body = strings.ReplaceAll(body, p, params[i])
+	}
+	return lo, replaceToken(body, "sumvar", v)
+}
+
+// hasBoundArg: the application occurs under a quantifier (an argument mentions a bound variable name x_N).
+func hasBoundArg(args []string) bool {
+	for _, a := range args {
+		for _, tok := range strings.FieldsFunc(a, func(r rune) bool { return r == '(' || r == ')' || r == ' ' }) {
+			if isBoundName(tok) {
+				return true
+			}
+		}
+	}
+	return false
+}
+
+// sumRelationLemmas instantiates two facts about finite sums (trusted base T-Sigma, ordinary mathematics) for every
+// pair of ground applications F(a, n1), F(b, n2) of the same sum function occurring in the query, at n in {n1, n2}:
+//   CONG(n):  (forall i in [lo,n): body(a,i) = body(b,i))  =>  F(a,n) = F(b,n)
+//   UPD(n,k): lo <= k < n and (forall i in [lo,n), i != k: body(a,i) = body(b,i))  =>  F(a,n) = F(b,n) + body(a,k) - body(b,k)
+// for the candidate positions k derived from the indices of array stores occurring in the arguments. The inner
+// universal is in an antecedent, so each instance is quantifier-free after skolemisation.
+func sumRelationLemmas(text string, sums map[string]*SumFn) []string {
+	var names []string
+	for k := range sums {
+		names = append(names, k)
+	}
+	sort.Strings(names)
+	var out []string
+	nsk := 0
+	for _, k := range names {
+		sf := sums[k]
+		var apps [][]string
+		seen := map[string]bool{}
+		for _, a := range sexpArgs(text, sf.Name) {
+			if len(a) == len(sf.PSorts)+1 && !hasBoundArg(a) && !seen[strings.Join(a, " ")] {
+				seen[strings.Join(a, " ")] = true
+				apps = append(apps, a)
+			}
+		}
+		emitted := map[string]bool{}
+		for i := 0; i < len(apps); i++ {
+			for j := i + 1; j < len(apps); j++ {
+				pa, pb := apps[i][:len(apps[i])-1], apps[j][:len(apps[j])-1]
+				if strings.Join(pa, " ") == strings.Join(pb, " ") {
+					continue // same parameters: related by unfolding only
+				}
+				loA, _ := sf.inst(pa, "0")
+				loB, _ := sf.inst(pb, "0")
+				if loA != loB {
+					continue
+				}
+				cands := map[string]bool{}
+				for _, arg := range append(append([]string{}, pa...), pb...) {
+					for _, st := range sexpArgs(arg, "store") {
+						if len(st) == 3 {
+							cands[st[1]] = true
+						}
+					}
+				}
+				var cs []string
+				for c := range cands {
+					cs = append(cs, c)
+				}
+				sort.Strings(cs)
+				for _, n := range []string{apps[i][len(apps[i])-1], apps[j][len(apps[j])-1]} {
+					key := strings.Join(pa, " ") + "|" + strings.Join(pb, " ") + "|" + n
+					if emitted[key] {
+						continue
+					}
+					emitted[key] = true
+					FA := sApp(sf.Name, append(append([]string{}, pa...), n)...)
+					FB := sApp(sf.Name, append(append([]string{}, pb...), n)...)
+					nsk++
+					sk := fmt.Sprintf("sumsk_%d", nsk)
+					_, bA := sf.inst(pa, sk)
+					_, bB := sf.inst(pb, sk)
+					out = append(out, fmt.Sprintf("(declare-const %s Int)", sk))
+					out = append(out, fmt.Sprintf("(assert (=> (=> (and (<= %s %s) (< %s %s)) (= %s %s)) (= %s %s)))", loA, sk, sk, n, bA, bB, FA, FB))
+					for _, kIdx := range cs {
+						for _, pos := range []string{kIdx, "(- " + kIdx + " 1)"} {
+							nsk++
+							sk2 := fmt.Sprintf("sumsk_%d", nsk)
+							_, bA2 := sf.inst(pa, sk2)
+							_, bB2 := sf.inst(pb, sk2)
+							_, bAp := sf.inst(pa, pos)
+							_, bBp := sf.inst(pb, pos)
+							out = append(out, fmt.Sprintf("(declare-const %s Int)", sk2))
+							out = append(out, fmt.Sprintf("(assert (=> (and (<= %s %s) (< %s %s) (=> (and (<= %s %s) (< %s %s) (not (= %s %s))) (= %s %s))) (= %s (+ %s (- %s %s)))))",
+								loA, pos, pos, n, loA, sk2, sk2, n, sk2, pos, bA2, bB2, FA, FB, bAp, bBp))
+						}
+					}
+				}
+			}
+		}
+	}
+	return out
 }
